@@ -23,6 +23,7 @@ import (
 	"github.com/yorkie-team/yorkie/server/backend/database/memory"
 
 	"verif/internal/boot"
+	"verif/internal/faultdb"
 	"verif/internal/runner"
 )
 
@@ -42,7 +43,13 @@ func (c11) Rule() string {
 		"the client record and the version-vector rows unchanged; an accepted call stores exactly the changes it carried (none once " +
 		"the document is removed); after Detach/Remove/Deactivate the client's version-vector row is gone and the stored status " +
 		"is detached/removed; after Remove every later accepted response on that document carries is_removed. Non-trivial = " +
-		"the sequence contains at least one accepted Attach."
+		"the sequence contains at least one accepted Attach. Race family (the last 440 / 1320 cases): TWO requests of ONE client in flight " +
+		"(push||detach, detach||push, push||deactivate, deactivate||push, push||remove, remove||push, detach||detach, pushonly||detach, " +
+		"detach||deactivate, attach||attach, detach||attach); the first is stalled before or after its k-th storage call (k enumerated over " +
+		"all its calls, through a decorator of Backend.DB), the second is started and finishes or waits for a lock, then the first is " +
+		"released. Oracle on the outcome, whatever order the server chose: a Detach / Deactivate / Remove that was answered OK has taken " +
+		"effect for good (stored status, no version-vector row), a PushPull sent afterwards is refused and stores nothing, no (actor, " +
+		"clientSeq) is in the log twice, two Attaches are not both accepted, the bystander still syncs."
 }
 func (c11) Assumptions() []string {
 	return []string{"memdb backend (rows read through the verif-tagged accessor VerifVersionVectors)", "synchronous DeactivateClient", "error codes are only classified accept/reject"}
@@ -50,7 +57,8 @@ func (c11) Assumptions() []string {
 
 func (c11) Exhaustive(tier string) bool { return false }
 func (c11) Floors(string) []runner.Floor {
-	return []runner.Floor{{Stat: "calls", Min: 50000}, {Stat: "rejected_calls_checked_for_side_effects", Min: 10000}}
+	return []runner.Floor{{Stat: "calls", Min: 50000}, {Stat: "rejected_calls_checked_for_side_effects", Min: 10000},
+		{Stat: "race_cases_with_a_stalled_request", Min: 150}, {Stat: "race_late_writes_checked", Min: 100}}
 }
 
 // ---- enumeration ----
@@ -160,7 +168,14 @@ func (c11) NumCases(tier string, _ int64) int {
 	if tier == "thorough" {
 		sampled = 3000
 	}
-	return n + sampled
+	return n + sampled + raceCases(tier)
+}
+
+func raceCases(tier string) int {
+	if tier == "thorough" {
+		return len(racePairs) * 120
+	}
+	return len(racePairs) * 40
 }
 
 // ---- reference model ----
@@ -306,7 +321,7 @@ type lcObs struct {
 func (lw *lcWorld) observe() lcObs {
 	o := lcObs{logs: map[string]int64{}, rows: map[string]string{}}
 	db := lw.w.env.BE.DB
-	mem, _ := db.(*memory.DB)
+	mem := lw.w.mem
 	for id := range lw.known {
 		ref := types.DocRefKey{ProjectID: lw.proj.ID, DocID: types.ID(id)}
 		if cs, err := db.FindChangeInfosBetweenServerSeqs(lw.ctx, ref, 1, 1<<62); err == nil {
@@ -515,14 +530,32 @@ func (lw *lcWorld) call(o lcOp, m *lcModel, expectOK bool) (bool, int, bool, str
 	return false, 0, false, "", "unknown op"
 }
 
-type c11Worker struct{ *simWorker }
+type c11Worker struct {
+	*simWorker
+	mem  *memory.DB // the store itself (the race family wraps Backend.DB)
+	fdb  *faultdb.DB
+	gate *gateHook
+}
+
+// raceSetup wraps the database with the stall gate on the first race case.
+func (w *c11Worker) raceSetup() error {
+	if w.fdb != nil {
+		return nil
+	}
+	w.gate = &gateHook{}
+	w.fdb = faultdb.Wrap(w.env.BE.DB)
+	w.env.BE.DB = w.fdb
+	w.fdb.SetHook(w.gate)
+	return nil
+}
 
 func (c11) NewWorker(tier string, seed int64) (runner.Worker, error) {
 	sw, err := newSimWorker(tier, seed, boot.Options{})
 	if err != nil {
 		return nil, err
 	}
-	return &c11Worker{sw}, nil
+	mem, _ := sw.env.BE.DB.(*memory.DB)
+	return &c11Worker{simWorker: sw, mem: mem}, nil
 }
 
 // runSeq executes one sequence; returns a violation description ("" = none) and an ident.
@@ -692,6 +725,10 @@ func sampledSeq(seed int64, idx int) []lcOp {
 
 func (w *c11Worker) Run(idx int) runner.CaseResult {
 	res := runner.CaseResult{Case: fmt.Sprintf("c11-%d", idx)}
+	if first := (c11{}).NumCases(w.tier, 0) - raceCases(w.tier); idx >= first {
+		w.runRace(&res, idx-first)
+		return res
+	}
 	all := lcSeqs(w.tier)
 	nb := (len(all) + lcBatch - 1) / lcBatch
 	var seqs [][]lcOp
@@ -726,10 +763,16 @@ func (w *c11Worker) Run(idx int) runner.CaseResult {
 func (w *c11Worker) Replay(data json.RawMessage) runner.CaseResult {
 	res := runner.CaseResult{Case: "replay"}
 	var rp struct {
-		Seq []lcOp `json:"seq"`
+		Seq    []lcOp `json:"seq"`
+		Family string `json:"family"`
+		Idx    int    `json:"idx"`
 	}
 	if err := json.Unmarshal(data, &rp); err != nil {
 		res.Inconclusive = err.Error()
+		return res
+	}
+	if rp.Family == "race" {
+		w.runRace(&res, rp.Idx)
 		return res
 	}
 	kind, detail, ident := w.runSeq(&res, rp.Seq)
